@@ -64,6 +64,7 @@ CLS_MANGLED = ["__q", "__r"]
 CLS_ATTRS = ["v", "w", "_k", "LIMIT"]
 CLS_PROPS = ["p", "size", "_cp"]
 CLS_NESTED = ["Inner", "Meta", "_N"]
+CLS_NESTED_SHADOWING = ["Base", "A"]  # nested-class names that also exist in the module-level class pool
 INIT_ATTRS = ["inst", "data", "_priv", "v"]
 PARAM_NAMES = ["a", "b", "c", "d", "e", "x", "y", "z", "k", "i", "j"]
 
@@ -238,9 +239,28 @@ class _Builder:
                             self._nested_exprs([TOP, *self.mods[j]["path"], n2], r2["id"], out)
         return out
 
-    def klass(self, name: str, genv: dict, depth: int, allow_none: bool, typing: bool = False) -> tuple[dict, int]:
+    def klass(self, name: str, genv: dict, depth: int, allow_none: bool, typing: bool = False, chain: tuple = ()) -> tuple[dict, int]:
+        """A class item. `chain` = ids of the enclosing classes (outermost first) when the class is nested.
+
+        Base-class names of a nested class follow Python's class-body scoping, which the two agents must agree on:
+        * a bare name of a sibling nested class defined EARLIER in the immediately enclosing class body (it shadows a
+          same-named module-level class or import: LOAD_NAME looks at the class-body locals first);
+        * otherwise an expression over module-level names whose first name is not the name of a nested class of ANY
+          enclosing class - neither one defined earlier (checked here) nor one defined later (the enclosing classes record
+          the global names their nested classes used, and never reuse them for a nested class). That keeps the generated
+          programs away from the visitor's known scope leniency (DESIGN 5.12: outer class scopes searched, definition order
+          ignored), which is C04's subject, not the skeleton's.
+        """
         d = self.draw
         cands = self.base_candidates(genv)
+        siblings: list = []
+        if chain:
+            # ... nor the name of the class being defined (`class A(A)` in a class body inherits from the global A)
+            # ... nor the name of an enclosing class (not yet bound in its own parent's body while it is being defined)
+            hidden = {n for k in chain for n in self.classes[k]["nested"]} | {self.classes[k]["name"] for k in chain} | {name}
+            cands = [c for c in cands if c[0][0] not in hidden]
+            for n, c in self.classes[chain[-1]]["nested"].items():
+                self._nested_exprs([n], c, siblings)
         bases: list[list[str]] = []
         base_ids: list[int] = []
         params = False
@@ -256,13 +276,23 @@ class _Builder:
             bases.append(["Protocol", "[T]"] if sub else ["Protocol"])
             base_ids.append(PROTOCOL_ID)
             params, orig, proto = sub, sub, True
-        elif cands and self.chance(65):
+        elif (cands or siblings) and self.chance(75 if siblings else 65):
             # prefer classes with a generic ancestry when there are some (descendants of generic classes are the point)
             lineage = [c for c in cands if self.classes[c[1]]["orig"] or self.classes[c[1]]["params"]]
+            if not cands:
+                cands = siblings
             for _ in range(2 if self.chance(65 if lineage else 50) else 1):
-                expr, cid = self.pick(lineage if lineage and self.chance(70) else cands)
+                if siblings and self.chance(60):
+                    expr, cid = self.pick(siblings)
+                    from_sibling = True
+                else:
+                    expr, cid = self.pick(lineage if lineage and self.chance(70) else cands)
+                    from_sibling = False
                 if cid in base_ids or not consistent(base_ids + [cid]):
                     continue
+                if chain and not from_sibling:
+                    for k in chain:
+                        self.classes[k]["global_refs"].add(expr[0])
                 if self.classes[cid]["params"] and self.chance(55):
                     sub = self.pick(["[T]", "[int]", "[str]"] if typing else ["[int]", "[str]"])
                     expr = [*expr, sub]
@@ -279,7 +309,7 @@ class _Builder:
         cid = self.next_cid
         self.next_cid += 1
         mro = [cid] + (c3_merge([self.classes[b]["mro"] for b in base_ids] + [list(base_ids)]) or [])
-        self.classes[cid] = {"mro": mro, "nested": {}, "params": params, "proto": proto, "orig": orig}
+        self.classes[cid] = {"mro": mro, "nested": {}, "params": params, "proto": proto, "orig": orig, "global_refs": set(), "name": name}
         body: list[dict] = []
         used: set[str] = set()
         has_init = False
@@ -310,10 +340,11 @@ class _Builder:
                 body.append({"t": "attr", "name": n, "value": self.value(allow_none)})
                 used.add(n)
             elif what == 8 and depth < 2:
-                n = self.fresh(CLS_NESTED, used)
+                pool = CLS_NESTED + (CLS_NESTED_SHADOWING if self.chance(50) else [])
+                n = self.fresh(pool, used | self.classes[cid]["global_refs"])
                 if n is None:
                     continue
-                item, ncid = self.klass(n, genv, depth + 1, allow_none, typing)
+                item, ncid = self.klass(n, genv, depth + 1, allow_none, typing, (*chain, cid))
                 body.append(item)
                 self.classes[cid]["nested"][n] = ncid
                 used.add(n)
@@ -719,6 +750,7 @@ def describe(case: dict):
     if any(m["init"] and m["path"] for m in mods):
         cls.add("subpackage")
     cur = mods[0]
+    module_names: set[str] = set()
     n_imports = 0
     max_flavours = 0
 
@@ -726,6 +758,7 @@ def describe(case: dict):
         nonlocal n_imports, max_flavours
         flav: set[str] = set()
         names: list[str] = []
+        siblings_seen: set[str] = set()  # nested classes defined earlier in this class body
         for it in items:
             t = it["t"]
             if t in ("from", "frommod", "import", "star"):
@@ -804,11 +837,19 @@ def describe(case: dict):
                             cls.add("generic:Generic[T]-base")
                         elif plain == ["Protocol"]:
                             cls.add("generic:Protocol[T]-base" if sub else "generic:Protocol-base")
+                        elif in_class and plain[0] in siblings_seen:
+                            cls.add("base:sibling-nested")
+                            if plain[0] in module_names:
+                                cls.add("base:sibling-nested-shadows-module-name")
                         else:
                             cls.add("base:dotted" if len(plain) > 1 else "base:name")
+                            if in_class:
+                                cls.add("base:nested-from-module-scope")
                             if sub:
                                 cls.add("generic:subscripted-base" + ("[T]" if sub == "[T]" else "[type]"))
                 walk(it["body"], depth + 1, True)
+                if in_class:
+                    siblings_seen.add(it["name"])
             if t in ("func", "class") and it.get("doc"):
                 d = it["doc"]
                 if d.startswith("\n"):
@@ -825,6 +866,10 @@ def describe(case: dict):
     cls.add(f"depth:{max(len(m['path']) for m in mods if m['init'] or not m['path']) if case['layout'] == 'package' else 0}")
     for m in mods:
         cur = m
+        module_names = {it["name"] for it in m["body"] if it["t"] in ("class", "func", "attr")}
+        for it in m["body"]:
+            if it["t"] == "from":
+                module_names |= {a or n for n, a in it["names"]}
         if m.get("typing"):
             cls.add("typing-header")
         if m["doc"] is not None:
